@@ -1,4 +1,4 @@
-"""The fixed list of syntactic rewrites (R1..R23 of DESIGN.md §3.2) applied to freshly extracted
+"""The fixed list of syntactic rewrites (R1..R24 of DESIGN.md §3.2) applied to freshly extracted
 function text before it is handed to Verus.  Each rewrite works on token lists and returns the
 number of sites it touched so the evidence can log it."""
 import re
@@ -299,6 +299,46 @@ def r23_digits_prefix_collect(toks, log):
         out.append(toks[i])
         i += 1
     return out
+
+
+def r24_format_minus(toks, log):
+    """R24 (entry option `r24`): the expansion of `format!("-{}", E)`,
+         `:: alloc :: fmt :: format ( format_args ! ( "-{0}" , E ) )`  ->  `bn_fmt_minus ( E )`
+    vstd's specification of `alloc::fmt::format` says nothing about the produced text, so the call goes to a
+    trusted `external_body` wrapper declared by the overlay unit whose body is this same expression and whose
+    contract is "'-' followed by the text of E" (E: String).  Only this exact format string is rewritten."""
+    head = ['::', 'alloc', '::', 'fmt', '::', 'format', '(', 'format_args', '!', '(', '"-{0}"', ',']
+    out = []
+    i = 0
+    n = len(toks)
+    while i < n:
+        if toks[i:i + len(head)] == head:
+            j = i + len(head)
+            d = 0
+            while j < n and not (toks[j] == ')' and d == 0):
+                if toks[j] in '([{':
+                    d += 1
+                elif toks[j] in ')]}':
+                    d -= 1
+                j += 1
+            if j + 1 < n and toks[j] == ')' and toks[j + 1] == ')' and ',' not in [t for k, t in enumerate(toks[i + len(head):j]) if _depth0(toks[i + len(head):j], k)]:
+                out += ['bn_fmt_minus', '('] + toks[i + len(head):j] + [')']
+                log['R24'] = log.get('R24', 0) + 1
+                i = j + 2
+                continue
+        out.append(toks[i])
+        i += 1
+    return out
+
+
+def _depth0(ts, k):
+    d = 0
+    for t in ts[:k]:
+        if t in '([{':
+            d += 1
+        elif t in ')]}':
+            d -= 1
+    return d == 0
 
 
 def const_to_fn(const_toks, assoc, log, trait_impl=False):
